@@ -151,7 +151,7 @@ class MinimizePrologue(Unit):
         m.__dict__["_get_bounds"] = lambda b, n: None
         m.__dict__["_get_constraints"] = lambda cs: ([], [])
         m.__dict__["Problem"] = problem_stub
-        kind, res = call_expecting(c, "C08.minimize_prologue", lambda: m.minimize(lambda x: 0.0, [0.0], options=user), (ValueError, Cut), props=["C08"])
+        kind, res = call_expecting(c, "C08.minimize_prologue", lambda: m.minimize(lambda x: 0.0, [0.0], options=user), (ValueError, Cut))
         bad = z3.Or(z3.And(P["history_size"], V["history_size"].t <= 0), z3.And(P["filter_size"], V["filter_size"].t <= 0))
         c.oblige("C11.minimize_prologue.user_options_not_written", z3.BoolVal(user.version == v0), props=["C11"],
                  note="minimize wrote into the options dict passed by the user")
